@@ -31,8 +31,9 @@ META = dict(
                   'PSD / |corr| <= 1 are checked numerically only (partial)',
                   'scipy.linalg.expm / IEEE doubles on both sides'],
     assumptions=['tolerance 1e-9 of the raw-moment scale (mean resp. second raw moment of the total statistic); '
-                 'symmetry 1e-10 of the same scale; "exactly zero" = <= 1e-14 x max(1, scale); only the non-stiff '
-                 'regime (no PhaseGen warning logged) is compared'],
+                 'symmetry 1e-10 of the same scale; correlation bound widened by 1e-13 x scale / min(variance) (rounding noise of a small variance); "exactly zero" = <= 1e-14 x max(1, scale); only the non-stiff '
+                 'regime is compared: no PhaseGen warning logged and horizon <= 2000 mean tree heights '
+                 '(p2util.ill_scaled)'],
 )
 
 REL = 1e-9
@@ -107,15 +108,17 @@ class Checker:
             for i, d in enumerate(diag):
                 self.cmp(f'{sig}:diagonal-vs-marginal-var', float(d), float(M[i, i]), s2, index=i, **extra)
 
-    def corr_entries(self, sig, corr_of, cov, var, **extra):
-        """corr_of(i, j) is only called where both variances are > 1e-12"""
+    def corr_entries(self, sig, corr_of, cov, var, s2, **extra):
+        """corr_of(i, j) is only called where both variances are > 1e-12; the bound is widened by the rounding noise
+        of the variances (absolute error ~1e-15 x the raw second moment s2) relative to the smaller variance"""
         D = len(var)
         for i in range(D):
             for j in range(D):
                 if var[i] > 1e-12 and var[j] > 1e-12:
                     c = float(corr_of(i, j))
-                    if not (np.isfinite(c) and -1 - 1e-9 <= c <= 1 + 1e-9):
-                        self.bad(f'{sig}:corr-out-of-range', i=i, j=j, corr=c, **extra)
+                    slack = 1e-9 + 1e-13 * s2 / min(var[i], var[j])
+                    if not (np.isfinite(c) and -1 - slack <= c <= 1 + slack):
+                        self.bad(f'{sig}:corr-out-of-range', i=i, j=j, corr=c, slack=slack, **extra)
                     ref = cov[i][j] / (var[i] ** 0.5 * var[j] ** 0.5)
                     if not abs(c - ref) <= 1e-9 * max(1.0, abs(ref)):
                         self.bad(f'{sig}:corr-vs-cov', i=i, j=j, expected=float(ref), observed=c, **extra)
@@ -169,6 +172,10 @@ def evaluate(ctx, pg, cfg, probe=True, sfs_limit=60):
                            '(correlations are only evaluated where both variances are > 1e-12)')
         return
 
+    if U.ill_scaled(T, v['th']['mean']):
+        ctx.count('ill-scaled-horizon')
+        ctx.skipped += 1
+        return
     H = U.holdable(cfg)
     ctx.case(dict(cfg=cfg, pops=pops, never_holds=iso, T=T, th=dict(mean=v['th']['mean'], demes=v['th']['dm']),
                   tbl_var=v['tbl']['var'], tbl_demes_cov=v['tbl']['cov'].tolist()),
@@ -189,9 +196,9 @@ def evaluate(ctx, pg, cfg, probe=True, sfs_limit=60):
             if w['corr'].shape != (D, D):
                 ck.bad(f'C12c:{nm}:demes.corr:shape', shape=list(w['corr'].shape))
             else:
-                ck.corr_entries(f'C12c:{nm}:demes', lambda i, j: w['corr'][j, i], w['cov'].T, w['dv'], pops=pops)
+                ck.corr_entries(f'C12c:{nm}:demes', lambda i, j: w['corr'][j, i], w['cov'].T, w['dv'], s2, pops=pops)
         else:
-            ck.corr_entries(f'C12c:{nm}:demes', lambda i, j: w['corr_e'][(i, j)], w['cov'].T, w['dv'], pops=pops)
+            ck.corr_entries(f'C12c:{nm}:demes', lambda i, j: w['corr_e'][(i, j)], w['cov'].T, w['dv'], s2, pops=pops)
         for p in iso:
             i = pops.index(p)
             if not (abs(w['dm'][i]) <= 1e-14 * max(1.0, s1) and abs(w['dv'][i]) <= 1e-14 * max(1.0, s2)):
@@ -201,7 +208,7 @@ def evaluate(ctx, pg, cfg, probe=True, sfs_limit=60):
             if nm == 'tbl':
                 ck.cmp('C12d:tbl:sum-locus-means-vs-mean', w['mean'], float(sum(w['lm'])), s1, locus_means=w['lm'])
             ck.matrix(f'C12d:{nm}:loci.cov', w['lcov'], s2, var_total=w['var'] if nm == 'tbl' else None, diag=w['lv'])
-            ck.corr_entries(f'C12d:{nm}:loci', lambda i, j: w['lcorr_e'][(i, j)], w['lcov'].T, w['lv'])
+            ck.corr_entries(f'C12d:{nm}:loci', lambda i, j: w['lcorr_e'][(i, j)], w['lcov'].T, w['lv'], s2)
     if with_sfs:
         w = v['sfs']
         s1 = max(abs(v['tbl']['mean']), 1e-300)
